@@ -203,6 +203,19 @@ def run_offset_case(case):
         res, cause, _ = refsolve.call_outcome(m.solve_t, t, tol=scripted.TOL, offset=offset)
     out = []
     inside = 0 <= pos + offset < n
+    if case.get('reject'):
+        # min_iter > max_iter is rejected with ValueError before ANYTHING changes - also before the offset copy
+        fresh = scripted.make_scripted(span, {pos: [('conv', 0)]})
+        for i, name in enumerate(fresh.names):
+            fresh[name] = [10.0 * (i + 1) + j for j in range(n)]
+        snap = scripted.snapshot(fresh)
+        call = fresh.solve_period if route == 'solve_period' else fresh.solve_t
+        r2 = refsolve.call_outcome(call, span[pos] if route == 'solve_period' else t, tol=scripted.TOL, offset=offset, min_iter=3, max_iter=2)
+        if r2[0] != 'ValueError' or scripted.changed_cells(snap, fresh):
+            out.append(('offset:rejected-call-changed', {'result': 'ValueError', 'changed': []},
+                        {'result': r2[0], 'changed': sorted(map(str, scripted.changed_cells(snap, fresh)))},
+                        'min_iter > max_iter must be rejected before anything changes (including the offset copy)'))
+        return out
     if not inside:
         if res != 'IndexError' or scripted.changed_cells(before, m):
             out.append(('offset:out-of-span', {'result': 'IndexError', 'changed': []},
@@ -238,6 +251,11 @@ def run_offsets(acc, tier):
                 acc.nontrivial += 1
                 for key, exp, obs, what in run_offset_case(case):
                     acc.violation(key, case, exp, obs, what)
+                case2 = dict(case, reject=True)
+                acc.evaluations += 1
+                acc.nontrivial += 1
+                for key, exp, obs, what in run_offset_case(case2):
+                    acc.violation(key, case2, exp, obs, what)
                 acc.outcome(('offset', 0 <= (t % n) + offset < n))
     acc.sample({'kind': 'offset', 'n': 5, 't': -5, 'offset': 2})
 
